@@ -18,6 +18,14 @@ index_map = {}
 next_index = 0  # pylint:disable=C0103
 
 
+_PACKAGE_DIR = os.path.dirname(os.path.abspath(__file__)) + os.sep
+
+
+def _is_dsl_file(filename: str) -> bool:
+    """True for the source files of the nada_dsl package itself."""
+    return os.path.abspath(filename).startswith(_PACKAGE_DIR)
+
+
 @dataclass
 class SourceRef:
     """
@@ -33,6 +41,13 @@ class SourceRef:
     def back_frame(cls) -> "SourceRef":
         """Get the source reference of the calling frame."""
         backend_frame = inspect.currentframe().f_back.f_back
+        # Operations created inside the DSL itself (shared operator helpers, folded literals,
+        # nada_fn) belong to the user statement that triggered them: walk back to the first
+        # frame that is not part of the nada_dsl package.
+        while backend_frame.f_back is not None and _is_dsl_file(
+            backend_frame.f_code.co_filename
+        ):
+            backend_frame = backend_frame.f_back
         lineno = backend_frame.f_lineno
         (offset, length) = SourceRef.try_get_line_info(backend_frame, lineno)
         return cls(
@@ -47,7 +62,7 @@ class SourceRef:
         """Try to get line information from the source code."""
         # We don't include file sources from nada_dsl package.
         # This is to prevent 'nada_fn' wrongly adding nada_dsl source files from this package.
-        if "nada_dsl" in backend_frame.f_code.co_filename:
+        if _is_dsl_file(backend_frame.f_code.co_filename):
             return 0, 0
         filename = os.path.basename(backend_frame.f_code.co_filename)
 
